@@ -178,7 +178,7 @@ func RaceBody(reps int, seed int64) {
 				}
 			}
 		}
-		wg.Wait()
+		engine.WaitOrBlocked(&wg, "crypto jobs", runs)
 		runs++
 	}
 	for k, v := range failed {
